@@ -19,7 +19,7 @@ import (
 )
 
 var (
-	httpPool = gwbox.NewPool(2)
+	httpPool = gwbox.NewPool(3) // 0: stable endpoint of lim1, 1: lim2, 2: the endpoint of lim1 that histories remove
 	httpSeq  int64
 )
 
@@ -91,8 +91,8 @@ func probe(g *gwbox.Gateway, host, path string, cap int) (admitted int, err stri
 
 // TestPropSlotsReturnedOnEveryExitPath: the ledger at HTTP level.
 func TestPropSlotsReturnedOnEveryExitPath(t *testing.T) {
-	sub := stats.NewSub("http-exit-paths", "rapid: a max-in-flight(M in 1..3) schema on the 'pods' policy of a cluster behind the real chain + dispatcher; 1-8 requests run to completion, each ending in a generated way (200; upstream 5xx; upstream resets the connection mid-body; no ready endpoint = 503 after the slot was taken; client aborts while the upstream holds the response; client aborts mid-stream; panic injected into the response writer), up to M of them concurrently; oracle: afterwards exactly M requests are admitted concurrently (held open at the stub) and the next one is answered 429; the 'other' schema of the cluster and a second cluster still admit their own limit; non-trivial = at least one abnormal ending; distinct by FNV-64 of the plan")
-	endings := []string{"ok", "upstream-5xx", "upstream-reset", "no-ready-endpoint", "client-abort-waiting", "client-abort-streaming", "writer-panic"}
+	sub := stats.NewSub("http-exit-paths", "rapid: a max-in-flight(M in 1..3) schema on the 'pods' policy of a two-endpoint cluster behind the real chain + dispatcher; K in 0..M-1 requests are held open at the stable endpoint for the whole history (so that a slot returned twice is visible, the counter cannot go below zero); 1-8 further requests run to completion, each ending in a generated way (200; upstream 5xx; upstream resets the connection mid-body; no ready endpoint = 503 after the slot was taken; client aborts while the upstream holds the response; client aborts mid-stream; panic injected into the response writer; the endpoint serving the request is removed from the cluster spec while it is in flight), up to M-K of them concurrently; oracle: afterwards exactly M-K more requests are admitted concurrently (held open at the stub) and the next one is answered 429, and after the K held requests finished exactly M; the 'other' schema of the cluster and a second cluster still admit their own limit; non-trivial = at least one abnormal ending; distinct by FNV-64 of the plan")
+	endings := []string{"ok", "upstream-5xx", "upstream-reset", "no-ready-endpoint", "client-abort-waiting", "client-abort-streaming", "writer-panic", "endpoint-removed", "endpoint-removed"}
 	stats.Check(t, stats.N(80, 600), func(t *rapid.T) {
 		m := int32(rapid.IntRange(1, 3).Draw(t, "M"))
 		n := rapid.IntRange(1, 8).Draw(t, "requests")
@@ -104,14 +104,16 @@ func TestPropSlotsReturnedOnEveryExitPath(t *testing.T) {
 				abnormal = true
 			}
 		}
-		conc := rapid.IntRange(1, int(m)).Draw(t, "concurrency")
+		k := rapid.IntRange(0, int(m)-1).Draw(t, "heldForTheWholeHistory")
+		conc := rapid.IntRange(1, int(m)-k).Draw(t, "concurrency")
 		g := gwbox.NewGateway()
 		defer g.Close()
 		g.SetToken("client-token", gwbox.Identity{Name: "alice"})
 		for _, u := range httpPool.Upstreams {
 			u.SetHealth(200)
 		}
-		if _, err := g.Box.Apply(limitedCluster("lim1", m, httpPool.Upstreams[0])); err != nil {
+		stable, victim := httpPool.Upstreams[0], httpPool.Upstreams[2]
+		if _, err := g.Box.Apply(limitedCluster("lim1", m, stable)); err != nil {
 			t.Fatalf("harness: %v", err)
 		}
 		if _, err := g.Box.Apply(limitedCluster("lim2", 2, httpPool.Upstreams[1])); err != nil {
@@ -123,7 +125,42 @@ func TestPropSlotsReturnedOnEveryExitPath(t *testing.T) {
 			t.Skip("upstreams not ready")
 		}
 		sub.Eval()
-		desc := fmt.Sprintf("M=%d concurrency=%d endings=%v", m, conc, plan)
+		desc := fmt.Sprintf("M=%d held=%d concurrency=%d endings=%v", m, k, conc, plan)
+		// K requests stay in flight (at the stable endpoint) until the end
+		var holders []*held
+		releaseHolders := func() {
+			for _, h := range holders {
+				close(h.hold)
+			}
+			for _, h := range holders {
+				select {
+				case <-h.done:
+				case <-time.After(10 * time.Second):
+				}
+				httpPool.Forget(h.id)
+			}
+			holders = nil
+		}
+		defer releaseHolders()
+		for i := 0; i < k; i++ {
+			h := holdOpen(g, "lim1", "/api/v1/namespaces/default/pods")
+			holders = append(holders, h)
+			select {
+			case <-httpPool.Started(h.id):
+			case st := <-h.done:
+				h.done <- st
+				t.Fatalf("request %d of %d <= M was answered %d instead of being admitted\n%s", i+1, k, st, desc)
+			case <-time.After(10 * time.Second):
+				t.Fatalf("harness: held request did not reach the stub\n%s", desc)
+			}
+		}
+		if _, err := g.Box.Apply(limitedCluster("lim1", m, stable, victim)); err != nil {
+			t.Fatalf("harness: %v", err)
+		}
+		if !g.WaitReady("lim1", ready, 10*time.Second) {
+			sub.Inconclusive()
+			t.Skip("second endpoint not ready")
+		}
 		sem := make(chan struct{}, conc)
 		var wg sync.WaitGroup
 		var mu sync.Mutex
@@ -153,10 +190,12 @@ func TestPropSlotsReturnedOnEveryExitPath(t *testing.T) {
 				case "no-ready-endpoint":
 					// the slot is taken before the endpoint is picked; make the only endpoint unhealthy for this request
 					mu.Lock()
-					httpPool.Upstreams[0].SetHealth(500)
+					stable.SetHealth(500)
+					victim.SetHealth(500)
 					g.WaitReady("lim1", func(string) bool { return false }, 10*time.Second)
 					r := g.Do(ctx, req)
-					httpPool.Upstreams[0].SetHealth(200)
+					stable.SetHealth(200)
+					victim.SetHealth(200)
 					g.WaitReady("lim1", ready, 10*time.Second)
 					mu.Unlock()
 					if r.Status != 503 && r.Status != 429 {
@@ -188,6 +227,35 @@ func TestPropSlotsReturnedOnEveryExitPath(t *testing.T) {
 						time.Sleep(2 * time.Millisecond)
 					}
 					close(hold)
+				case "endpoint-removed":
+					// the upstream holds the response; if the request was routed to the second endpoint, that endpoint is
+					// removed from the cluster spec (its in-flight requests are cancelled) and added again
+					hold := make(chan struct{})
+					httpPool.SetReply(id, &gwbox.Reply{Status: 200, Hold: hold, Body: []byte("late")})
+					done := make(chan struct{})
+					go func() { g.Do(ctx, req); close(done) }()
+					select {
+					case <-httpPool.Started(id):
+						if seen := httpPool.Find(id); len(seen) == 1 && seen[0].Upstream == victim.Index {
+							mu.Lock()
+							_, err1 := g.Box.Apply(limitedCluster("lim1", m, stable))
+							select {
+							case <-done: // answered (502) because the endpoint went away
+							case <-time.After(10 * time.Second):
+							}
+							_, err2 := g.Box.Apply(limitedCluster("lim1", m, stable, victim))
+							g.WaitReady("lim1", ready, 10*time.Second)
+							if err1 != nil || err2 != nil {
+								problems = append(problems, fmt.Sprintf("harness: re-applying the cluster failed: %v %v", err1, err2))
+							}
+							mu.Unlock()
+							sub.Class("endpoint-removed-under-a-request-in-flight")
+						}
+					case <-done:
+					case <-time.After(10 * time.Second):
+					}
+					close(hold)
+					<-done
 				case "writer-panic":
 					httpPool.SetReply(id, &gwbox.Reply{Status: 200, Body: []byte("will not arrive")})
 					req.Headers = append(req.Headers, [2]string{"X-Verif-Panic", "1"})
@@ -201,6 +269,25 @@ func TestPropSlotsReturnedOnEveryExitPath(t *testing.T) {
 		}
 		// give the gateway a moment to finish handler goroutines of aborted requests
 		time.Sleep(30 * time.Millisecond)
+		for _, h := range holders {
+			select {
+			case st := <-h.done:
+				h.done <- st
+				t.Fatalf("a request held open at the endpoint that was never removed was answered %d during the history\n%s", st, desc)
+			default:
+			}
+		}
+		if k > 0 {
+			got, perr := probe(g, "lim1", "/api/v1/namespaces/default/pods", int(m)+2)
+			if perr != "" {
+				t.Fatalf("harness/probe: %s\n%s", perr, desc)
+			}
+			if got != int(m)-k {
+				t.Fatalf("with %d requests still in flight %d more are admitted concurrently under the schema, the limit is %d (slot leaked or returned twice)\n%s", k, got, m, desc)
+			}
+		}
+		releaseHolders()
+		time.Sleep(10 * time.Millisecond)
 		got, perr := probe(g, "lim1", "/api/v1/namespaces/default/pods", int(m)+2)
 		if perr != "" {
 			t.Fatalf("harness/probe: %s\n%s", perr, desc)
